@@ -69,6 +69,7 @@ type Exec struct {
 	smokeCount map[string]int
 	Inlined map[string]bool
 	epochSeq int
+	bvSeq    int
 	Assumptions map[string]bool
 }
 
@@ -590,8 +591,7 @@ func (x *Exec) ptrTerm(v Value) string {
 	t := p.Base
 	for _, s := range p.Steps {
 		if s.IsIndex {
-			f := x.D.Fun("elemref", []string{SInt, SInt}, SInt)
-			t = app(f, t, s.Index)
+			t = x.elemRef(t, s.Index)
 		} else {
 			f := x.D.Fun("fieldref."+sanitize(s.St.Field(s.Field).Name()), []string{SInt}, SInt)
 			t = app(f, t)
@@ -725,6 +725,11 @@ func (x *Exec) load(st *State, pv Value, assume bool) Value {
 		out = x.mk(term, t)
 	}
 	if assume {
+		if len(out.Term) > 160 && out.Ptr == nil && out.Tup == nil && !strings.Contains(out.Term, "!b") && !strings.Contains(out.Term, "!q") {
+			n := x.D.Fresh("v", out.Sort)
+			st.Assume(Eq(n, out.Term))
+			out.Term = n
+		}
 		x.assumeTypeInv(st, out, false)
 	}
 	return out
@@ -753,6 +758,9 @@ func (x *Exec) loadObject(st *State, base string, t types.Type) Value {
 		}
 		return x.mk(app("mk."+s, fs...), t)
 	case *types.Array:
+		if x.exploded(u.Elem()) {
+			x.fail("whole-array load of struct array")
+		}
 		es := x.TM.Sort(u.Elem())
 		return x.mk(Select(x.elemArr(st, es), base), t)
 	default:
@@ -776,6 +784,16 @@ func (x *Exec) storeObject(st *State, base string, t types.Type, v string) {
 			st.Heap[name] = Store(x.heapArr(st, name, SInt, vs), base, app(x.TM.FieldSel(s, u, i), v))
 		}
 	case *types.Array:
+		if x.exploded(u.Elem()) {
+			// only zero-initialisation of a fresh struct array is supported: done by choosing (fresh cells)
+			if u.Len() > 64 {
+				x.fail("large struct array")
+			}
+			for i := int64(0); i < u.Len(); i++ {
+				x.storeObject(st, x.elemRef(base, fmt.Sprintf("%d", i)), u.Elem(), x.TM.Zero(u.Elem()))
+			}
+			return
+		}
 		es := x.TM.Sort(u.Elem())
 		name := x.TM.ElemArray(es)
 		st.Heap[name] = Store(x.elemArr(st, es), base, v)
@@ -936,9 +954,13 @@ func (x *Exec) step(st *State, ins ssa.Instruction) {
 		es := x.TM.Sort(et)
 		x.emit(st, "makeslice", x.labelFor(ins, "makeslice", "len"), fmt.Sprintf("(and (>= %s 0) (<= %s %s))", l.Term, l.Term, c.Term), "")
 		r := x.alloc(st)
-		name := x.TM.ElemArray(es)
-		arr := x.elemArr(st, es)
-		st.Heap[name] = Store(arr, r, fmt.Sprintf("((as const (Array Int %s)) %s)", es, x.TM.Zero(et)))
+		if x.exploded(et) {
+			x.zeroStructElems(st, r, et)
+		} else {
+			name := x.TM.ElemArray(es)
+			arr := x.elemArr(st, es)
+			st.Heap[name] = Store(arr, r, fmt.Sprintf("((as const (Array Int %s)) %s)", es, x.TM.Zero(et)))
+		}
 		fr.Regs[ins] = x.mk(fmt.Sprintf("(mk_slice %s %s %s)", r, l.Term, c.Term), ins.Type())
 	case *ssa.MakeMap:
 		mt := ins.Type().Underlying().(*types.Map)
@@ -1176,6 +1198,10 @@ func (x *Exec) indexAddr(st *State, ins *ssa.IndexAddr) Value {
 		x.emit(st, "bounds", x.labelFor(ins, "bounds", describe(ins.X)), fmt.Sprintf("(and (>= %s 0) (< %s (slen %s)))", i.Term, i.Term, b.Term), "")
 		st.Assume(fmt.Sprintf("(and (>= %s 0) (< %s (slen %s)))", i.Term, i.Term, b.Term))
 		idx := i.Term
+		if x.exploded(u.Elem()) {
+			r := x.elemRef(app("sbase", b.Term), idx)
+			return Value{Typ: ins.Type(), Sort: SInt, Term: r, Ptr: &Pointer{Base: r, Elem: u.Elem()}}
+		}
 		return Value{Typ: ins.Type(), Sort: SInt, Ptr: &Pointer{Base: app("sbase", b.Term), Steps: []Step{{IsIndex: true, Index: idx, Struct: u.Elem()}}, Elem: u.Elem(), ElemBaseSort: es}}
 	case *types.Pointer:
 		arr := types.Unalias(u.Elem()).Underlying().(*types.Array)
@@ -1186,6 +1212,10 @@ func (x *Exec) indexAddr(st *State, ins *ssa.IndexAddr) Value {
 			return Value{Typ: ins.Type(), Sort: SInt, Ptr: np}
 		}
 		base := x.ptrTerm(b)
+		if x.exploded(arr.Elem()) {
+			r := x.elemRef(base, i.Term)
+			return Value{Typ: ins.Type(), Sort: SInt, Term: r, Ptr: &Pointer{Base: r, Elem: arr.Elem()}}
+		}
 		return Value{Typ: ins.Type(), Sort: SInt, Ptr: &Pointer{Base: base, Steps: []Step{{IsIndex: true, Index: i.Term, Struct: arr.Elem()}}, Elem: arr.Elem(), ElemBaseSort: es}}
 	}
 	x.fail("unsupported IndexAddr on %v", ins.X.Type())
@@ -1564,4 +1594,33 @@ func (x *Exec) subSliceCopy(st *State, base, lo, hi, capT string, et types.Type,
 	st.Heap[name] = Store(arr, r, inner)
 	x.Assumptions["sub-slice with non-zero low bound modelled as a copy"] = true
 	return x.mk(fmt.Sprintf("(mk_slice %s (- %s %s) (- %s %s))", r, hi, lo, capT, lo), rt)
+}
+
+// exploded: slices/arrays of (transparent) struct elements keep each element as an object at elemref(base, i),
+// with its fields in the per-field heap arrays. This makes &s[i] a first-class reference.
+func (x *Exec) exploded(et types.Type) bool {
+	if isTime(et) || x.TM.IsOpaqueStruct(et) {
+		return false
+	}
+	_, ok := types.Unalias(et).Underlying().(*types.Struct)
+	return ok
+}
+
+func (x *Exec) elemRef(base, idx string) string {
+	f := x.D.Fun("elemref", []string{SInt, SInt}, SInt)
+	x.D.Fun("eref.base", []string{SInt}, SInt)
+	x.D.Fun("eref.idx", []string{SInt}, SInt)
+	x.D.Axiom("(forall ((b!q Int) (i!q Int)) (! (and (= (eref.base (elemref b!q i!q)) b!q) (= (eref.idx (elemref b!q i!q)) i!q) (< (elemref b!q i!q) 0)) :pattern ((elemref b!q i!q))))")
+	return app(f, base, idx)
+}
+
+// zeroStructElems: the elements of a fresh struct array are zero (assumed about cells never read before).
+func (x *Exec) zeroStructElems(st *State, base string, et types.Type) {
+	stt := types.Unalias(et).Underlying().(*types.Struct)
+	for i := 0; i < stt.NumFields(); i++ {
+		name, vs := x.TM.FieldArray(et, stt, i)
+		arr := x.heapArr(st, name, SInt, vs)
+		st.Assume(fmt.Sprintf("(forall ((i!q Int)) (! (= (select %s (elemref %s i!q)) %s) :pattern ((elemref %s i!q))))", arr, base, x.TM.Zero(stt.Field(i).Type()), base))
+	}
+	x.elemRef(base, "0")
 }
